@@ -75,11 +75,15 @@ def monC07 (h : Hist) : Option String :=
     first? [
       -- nothing stored before the unsafe request for one of its targets is reused without validation
       h.reqs.findSome? fun ri => do
-        if ri.n ≤ rm.n then none else
         let x ← h.ex ri
+        -- "after" / "before" the unsafe request: by position in a sequential history, by (strict) instants
+        -- in a history with concurrent groups
+        let conc := h.cls == "concurrent" || h.cls == "inval-race"
+        if (if conc then ri.n = rm.n || decide (x.res.t0 ≤ xm.res.t1) else decide (ri.n ≤ rm.n)) then none else
         if !(x.servedUnvalidated h) then none else
         let (j, _) ← x.token
-        if j ≥ rm.n then none else
+        let before : Bool := if conc then (match h.res j with | some rj => j ≠ rm.n && decide (rj.t1 < xm.res.t0) | none => false) else decide (j < rm.n)
+        if !before then none else
         let rj ← h.reqOf j
         if targets.contains (normOf rj) then
           some s!"exchange {ri.n}: response stored by exchange {j} for {shw rj.url} reused without validation after the successful {shw rm.method} of exchange {rm.n} ({shw rm.url})"
